@@ -32,6 +32,13 @@ pub struct ExIoError(std::io::Error);
 // `kind()` of an io::Error is a function of the error value
 pub uninterp spec fn io_error_kind(e: std::io::Error) -> std::io::ErrorKind;
 
+// std `io::Error::kind` (as in prelude/leaves_types.rs) and `==` / `!=` on io::ErrorKind (a fieldless enum: derived PartialEq)
+pub assume_specification[ std::io::Error::kind ](e: &std::io::Error) -> (r: std::io::ErrorKind)
+    ensures r == io_error_kind(*e);
+
+pub assume_specification[ <std::io::ErrorKind as PartialEq>::eq ](a: &std::io::ErrorKind, b: &std::io::ErrorKind) -> (r: bool)
+    ensures r == (*a == *b);
+
 // std::path::Path: the same text-viewed shim as PathBuf (R3; `&PathBuf` derefs to `&Path`)
 type Path = PathBuf;
 
@@ -227,16 +234,22 @@ spec fn de_view(e: DirEntry) -> EntView { (e.name@, e.kind, e.len) }
 spec fn views(es: Seq<DirEntry>) -> Seq<EntView> { es.map_values(|e: DirEntry| de_view(e)) }
 
 // ---------- raw directory listings: opendir(3)/readdir(3) as wrapped by tokio::fs::read_dir ----------
+// What one of the two per-entry lookups yields DURING THIS LISTING:
+//   Ok(x)     it succeeds with x
+//   Vanished  it fails with ENOENT (io NotFound): the entry went away after readdir returned its name
+//   Fault     it fails with any other error (EACCES, EIO, ELOOP ..)
+enum Lookup<T> { Ok(T), Vanished, Fault }
+
 // One raw entry, as THIS listing sees it:
 //   name      Some(text) if the OS name is UTF-8, None otherwise (`OsString::into_string` fails)
-//   ftype     Some(kind) = what `DirEntry::file_type()` yields (d_type, else lstat: links NOT followed); None = it fails
-//   stat_len  Some(len) = what `DirEntry::metadata()` yields (fstatat, links not followed); None = it fails
+//   ftype     what `DirEntry::file_type()` yields (d_type, else lstat: links NOT followed)
+//   stat_len  what `DirEntry::metadata()` yields (fstatat, links not followed): the length
 // (the two lookups are made after the entry was read: "what they will yield" is fixed per entry because nobody else
 //  touches the tree during the operation)
 struct RawEnt {
     name: Option<Seq<char>>,
-    ftype: Option<FKind>,
-    stat_len: Option<u64>,
+    ftype: Lookup<FKind>,
+    stat_len: Lookup<u64>,
 }
 
 // what enumerating directory `d` yields in state `m` (order included: whatever order the file system uses)
@@ -244,16 +257,24 @@ uninterp spec fn raw_listing(m: FsModel, d: Seq<char>) -> Seq<RawEnt>;
 // where the entry of child `n` sits in that listing (Skolem function of the completeness half below)
 uninterp spec fn raw_index(m: FsModel, d: Seq<char>, n: Seq<char>) -> int;
 
-// an entry never claims more than the model holds, and differs from it only by being a symlink
+// the child this entry names is in the model (as a regular file or as a directory)
+spec fn in_model(m: FsModel, p: Seq<char>) -> bool { m.files.contains_key(p) || m.dirs.contains(p) }
+
+// an entry never claims more than the model holds, and differs from it only by being a symlink.
+// THE NotFound EXEMPTION, in a static model: the model does not change during the listing, so a child that IS in the model
+// cannot "vanish": a lookup may come back Vanished (ENOENT) only for an entry that is NOT in the model (a name that
+// somebody outside the model removed between readdir and the lookup).  Any other failure (Fault) is possible for every
+// entry.
 spec fn raw_sound(m: FsModel, d: Seq<char>, e: RawEnt) -> bool {
     e.name matches Some(n) ==> {
         &&& is_name(n)
-        &&& (e.ftype == Some(FKind::File) ==> m.files.contains_key(pjoin(d, n)))
-        &&& (e.ftype == Some(FKind::Dir) ==> m.dirs.contains(pjoin(d, n)))
-        &&& (e.ftype == Some(FKind::File) && e.stat_len is Some ==> e.stat_len->Some_0 as int == m.files[pjoin(d, n)].len())
-        &&& (m.files.contains_key(pjoin(d, n)) && e.ftype is Some ==> (e.ftype->Some_0 is File || e.ftype->Some_0 is Symlink))
-        &&& (m.dirs.contains(pjoin(d, n)) && !m.files.contains_key(pjoin(d, n)) && e.ftype is Some
-                ==> (e.ftype->Some_0 is Dir || e.ftype->Some_0 is Symlink))
+        &&& (e.ftype == Lookup::Ok(FKind::File) ==> m.files.contains_key(pjoin(d, n)))
+        &&& (e.ftype == Lookup::Ok(FKind::Dir) ==> m.dirs.contains(pjoin(d, n)))
+        &&& (e.ftype == Lookup::Ok(FKind::File) && e.stat_len is Ok ==> e.stat_len->Ok_0 as int == m.files[pjoin(d, n)].len())
+        &&& (m.files.contains_key(pjoin(d, n)) && e.ftype is Ok ==> (e.ftype->Ok_0 is File || e.ftype->Ok_0 is Symlink))
+        &&& (m.dirs.contains(pjoin(d, n)) && !m.files.contains_key(pjoin(d, n)) && e.ftype is Ok
+                ==> (e.ftype->Ok_0 is Dir || e.ftype->Ok_0 is Symlink))
+        &&& (in_model(m, pjoin(d, n)) ==> !(e.ftype is Vanished) && !(e.stat_len is Vanished))
     }
 }
 
@@ -292,15 +313,17 @@ impl TokioDirEntry {
     #[verifier::external_body]
     async fn file_type(&self) -> (r: std::result::Result<FileType, io::Error>)
         ensures
-            self.raw().ftype matches Some(k) ==> (r matches Ok(t) && t.fkind() == k),
-            self.raw().ftype is None ==> r is Err,
+            self.raw().ftype matches Lookup::Ok(k) ==> (r matches Ok(t) && t.fkind() == k),
+            self.raw().ftype is Vanished ==> (r matches Err(e) && os_nf(e)),
+            self.raw().ftype is Fault ==> (r matches Err(e) && !os_nf(e)),
     { unimplemented!() }
 
     #[verifier::external_body]
     async fn metadata(&self) -> (r: std::result::Result<FsMetadata, io::Error>)
         ensures
-            self.raw().stat_len matches Some(l) ==> (r matches Ok(m) && m.s_len() == l),
-            self.raw().stat_len is None ==> r is Err,
+            self.raw().stat_len matches Lookup::Ok(l) ==> (r matches Ok(m) && m.s_len() == l),
+            self.raw().stat_len is Vanished ==> (r matches Err(e) && os_nf(e)),
+            self.raw().stat_len is Fault ==> (r matches Err(e) && !os_nf(e)),
     { unimplemented!() }
 }
 
@@ -492,19 +515,30 @@ impl Transport {
 }
 
 // ---------- the function list_dir is proved against ----------
-// what collect_tokio_dir_entry makes of one raw entry: None = the entry is DROPPED from the listing
-spec fn collect_spec(e: RawEnt) -> Option<EntView> {
+// what collect_tokio_dir_entry makes of one raw entry:
+//   Ok(Some(v))  listed as v
+//   Ok(None)     left out: a name that is not UTF-8, a symlink / special file, an entry that vanished
+//   Err(())      the entry cannot be examined (a lookup fails with anything but NotFound): the LISTING fails
+spec fn collect_spec(e: RawEnt) -> std::result::Result<Option<EntView>, ()> {
     match e.name {
-        None => None,
+        None => Ok(None),
         Some(n) => match e.ftype {
-            Some(FKind::Dir) => Some((n, Kind::Dir, None::<u64>)),
-            Some(FKind::File) => match e.stat_len {
-                Some(l) => Some((n, Kind::File, Some(l))),
-                None => None,
+            Lookup::Ok(FKind::Dir) => Ok(Some((n, Kind::Dir, None::<u64>))),
+            Lookup::Ok(FKind::File) => match e.stat_len {
+                Lookup::Ok(l) => Ok(Some((n, Kind::File, Some(l)))),
+                Lookup::Vanished => Ok(None),
+                Lookup::Fault => Err(()),
             },
-            _ => None,
+            Lookup::Ok(_) => Ok(None),
+            Lookup::Vanished => Ok(None),
+            Lookup::Fault => Err(()),
         },
     }
+}
+
+// every entry can be examined
+spec fn no_fault(ents: Seq<RawEnt>) -> bool {
+    forall|i: int| 0 <= i < ents.len() ==> collect_spec(#[trigger] ents[i]) is Ok
 }
 
 spec fn collected(ents: Seq<RawEnt>) -> Seq<EntView>
@@ -513,17 +547,14 @@ spec fn collected(ents: Seq<RawEnt>) -> Seq<EntView>
     if ents.len() == 0 { Seq::<EntView>::empty() }
     else {
         match collect_spec(ents.last()) {
-            Some(v) => collected(ents.drop_last()).push(v),
-            None => collected(ents.drop_last()),
+            Ok(Some(v)) => collected(ents.drop_last()).push(v),
+            _ => collected(ents.drop_last()),
         }
     }
 }
 
-// an entry the listing can show: its type lookup succeeds and says "not a symlink", and a regular file's stat succeeds.
-// For every other entry collect_tokio_dir_entry returns None (and only logs).
-spec fn readable_entry(e: RawEnt) -> bool {
-    e.ftype is Some && !(e.ftype->Some_0 is Symlink) && (e.ftype->Some_0 is File ==> e.stat_len is Some)
-}
+// the raw entry is a symlink (d_type reading): the one kind of child of the model that a listing leaves out
+spec fn symlink_entry(e: RawEnt) -> bool { e.ftype == Lookup::Ok(FKind::Symlink) }
 
 // every listed entry is in the model, with its kind and (files) its length: nothing invented
 spec fn entry_sound(m: FsModel, d: Seq<char>, v: EntView) -> bool {
@@ -551,8 +582,8 @@ proof fn lemma_collected_sound(m: FsModel, d: Seq<char>, ents: Seq<RawEnt>)
             if j < collected(p).len() {
                 assert(collected(ents)[j] == collected(p)[j]);
             } else {
-                assert(collect_spec(ents.last()) is Some);
-                assert(collected(ents)[j] == collect_spec(ents.last())->Some_0);
+                assert(collect_spec(ents.last()) matches Ok(Some(_)));
+                assert(collected(ents)[j] == collect_spec(ents.last())->Ok_0->Some_0);
             }
         }
     }
@@ -560,26 +591,28 @@ proof fn lemma_collected_sound(m: FsModel, d: Seq<char>, ents: Seq<RawEnt>)
 
 // an entry that collect_spec keeps is in the result
 proof fn lemma_collected_has(ents: Seq<RawEnt>, i: int)
-    requires 0 <= i < ents.len(), collect_spec(ents[i]) is Some,
-    ensures collected(ents).contains(collect_spec(ents[i])->Some_0),
+    requires 0 <= i < ents.len(), collect_spec(ents[i]) matches Ok(Some(_)),
+    ensures collected(ents).contains(collect_spec(ents[i])->Ok_0->Some_0),
     decreases ents.len()
 {
     let p = ents.drop_last();
     if i == ents.len() - 1 {
         let c = collected(ents);
-        assert(c[c.len() - 1] == collect_spec(ents[i])->Some_0);
+        assert(c[c.len() - 1] == collect_spec(ents[i])->Ok_0->Some_0);
     } else {
         lemma_collected_has(p, i);
         assert(p[i] == ents[i]);
-        let x = collect_spec(ents[i])->Some_0;
+        let x = collect_spec(ents[i])->Ok_0->Some_0;
         let k = choose|k: int| 0 <= k < collected(p).len() && collected(p)[k] == x;
         assert(collected(ents)[k] == x);
     }
 }
 
-// none dropped: every child of `d` in the model whose raw entry is readable is listed, with its kind and length
+// none dropped: EVERY child of `d` in the model (a regular file or a directory under a UTF-8 name) is listed, with its
+// kind and length -- unless its raw entry is a symlink (see the head of this file).  No "readable" side condition: an
+// entry that cannot be examined makes the listing fail (no_fault), it is never left out.
 spec fn listing_complete(m: FsModel, d: Seq<char>, vs: Seq<EntView>) -> bool {
-    forall|n: Seq<char>| is_name(n) && readable_entry(raw_listing(m, d)[#[trigger] raw_index(m, d, n)]) ==> {
+    forall|n: Seq<char>| is_name(n) && !symlink_entry(raw_listing(m, d)[#[trigger] raw_index(m, d, n)]) ==> {
         &&& (m.files.contains_key(pjoin(d, n))
                 ==> vs.contains((n, Kind::File, Some(m.files[pjoin(d, n)].len() as u64))))
         &&& (m.dirs.contains(pjoin(d, n)) && !m.files.contains_key(pjoin(d, n))
@@ -591,14 +624,14 @@ spec fn listing_sound(m: FsModel, d: Seq<char>, vs: Seq<EntView>) -> bool {
 }
 
 proof fn lemma_listing_exact(m: FsModel, d: Seq<char>)
-    requires listing_wf(m, d, raw_listing(m, d)),
+    requires listing_wf(m, d, raw_listing(m, d)), no_fault(raw_listing(m, d)),
     ensures
         listing_complete(m, d, collected(raw_listing(m, d))),
         listing_sound(m, d, collected(raw_listing(m, d))),
 {
     let ents = raw_listing(m, d);
     lemma_collected_sound(m, d, ents);
-    assert forall|n: Seq<char>| is_name(n) && readable_entry(ents[#[trigger] raw_index(m, d, n)]) implies ({
+    assert forall|n: Seq<char>| is_name(n) && !symlink_entry(ents[#[trigger] raw_index(m, d, n)]) implies ({
         &&& (m.files.contains_key(pjoin(d, n))
                 ==> collected(ents).contains((n, Kind::File, Some(m.files[pjoin(d, n)].len() as u64))))
         &&& (m.dirs.contains(pjoin(d, n)) && !m.files.contains_key(pjoin(d, n))
@@ -608,15 +641,18 @@ proof fn lemma_listing_exact(m: FsModel, d: Seq<char>)
         if m.files.contains_key(pjoin(d, n)) || m.dirs.contains(pjoin(d, n)) {
             assert(0 <= i < ents.len() && ents[i].name == Some(n));
             assert(raw_sound(m, d, ents[i]));
+            assert(collect_spec(ents[i]) is Ok);
+            assert(in_model(m, pjoin(d, n)));
             if m.files.contains_key(pjoin(d, n)) {
-                assert(ents[i].ftype == Some(FKind::File));
-                let l = ents[i].stat_len->Some_0;
+                assert(ents[i].ftype == Lookup::Ok(FKind::File));
+                assert(ents[i].stat_len is Ok);
+                let l = ents[i].stat_len->Ok_0;
                 assert(l as int == m.files[pjoin(d, n)].len());
-                assert(collect_spec(ents[i]) == Some((n, Kind::File, Some(l))));
+                assert(collect_spec(ents[i]) == Ok::<Option<EntView>, ()>(Some((n, Kind::File, Some(l)))));
                 lemma_collected_has(ents, i);
             } else {
-                assert(ents[i].ftype == Some(FKind::Dir));
-                assert(collect_spec(ents[i]) == Some((n, Kind::Dir, None::<u64>)));
+                assert(ents[i].ftype == Lookup::Ok(FKind::Dir));
+                assert(collect_spec(ents[i]) == Ok::<Option<EntView>, ()>(Some((n, Kind::Dir, None::<u64>))));
                 lemma_collected_has(ents, i);
             }
         }
